@@ -415,6 +415,50 @@ def gen_case(ctx, i):
             "decl_seed": rng.randrange(1 << 30), "stratum": stratum}
 
 
+def exhaustive_cases(thorough: bool):
+    """Seed-independent stratum: every content of a small grammar — 1-2 variables, 0-1 parameter, 0-2 derived values
+    (a chain, in both declaration orders), 1-2 reactions with every non-empty stoichiometry pattern over the
+    variables (coefficients -1 / 2), rates and derived functions from {a0, a0+a1, a0*a1} over the first names of
+    the pool; optionally the parameter free."""
+    import itertools
+
+    F1 = [["a", 0]]
+    F2 = [["+", ["a", 0], ["a", 1]], ["*", ["a", 0], ["a", 1]]]
+    out = []
+    for nv, npar in itertools.product((1, 2), (0, 1)):
+        vs = [f"x{i}" for i in range(nv)]
+        ps = ["k"] * npar
+        base = vs + ps
+        dconfs = [[]]
+        for e in F2 if len(base) >= 2 else F1:
+            a = base[: 2 if e in F2 else 1]
+            d1 = ["d1", {"args": a, "e": e}]
+            dconfs.append([d1])
+            for e2 in (F2 if thorough else F2[:1]):
+                d2 = ["d2", {"args": ["d1", base[-1]], "e": e2}]
+                dconfs += [[d1, d2], [d2, d1]]
+        patterns = [p for p in itertools.product((None, "-1", "2"), repeat=nv) if any(p)]
+        for dconf in dconfs:
+            pool = base + [k for k, _ in sorted(dconf)]
+            rate_args = [pool[-1], pool[0]]
+            rconfs = []
+            for p1 in patterns:
+                r1 = ["r1", {"args": rate_args, "e": F2[1], "st": [[v, {"c": c}] for v, c in zip(vs, p1) if c]}]
+                rconfs.append([r1])
+                if thorough or nv == 1:
+                    for p2 in patterns:
+                        r2 = ["r2", {"args": [pool[0]], "e": F1[0], "st": [[v, {"c": c}] for v, c in zip(vs, p2) if c]}]
+                        rconfs.append([r1, r2])
+            for rconf in rconfs:
+                for free in ([[]] + ([["k"]] if npar else [])):
+                    content = {"vars": [[v, {"v": "1"}] for v in vs], "pars": [[p, {"v": "2"}] for p in ps],
+                               "derived": copy.deepcopy(dconf), "rxns": copy.deepcopy(rconf)}
+                    out.append({"content": content, "bad": [], "free": list(free), "langs": list(LANGS),
+                                "states": [["1", [str(2 + i) for i in range(nv)], ["3"] * len(free)]],
+                                "decl_seed": len(out), "stratum": "exhaustive"})
+    return out
+
+
 def evaluate(cases, use_driver=True):
     Rs = pool().map(_real_worker, cases, chunksize=4)
     Ms = driver.call_batch(driver_requests(cases)) if use_driver else [None] * len(cases)
@@ -756,6 +800,10 @@ def run(ctx):
         corpus.append(c)
     tools = ctx.tier == "thorough"
     run_batch(ctx, corpus, tools)
+    ex = exhaustive_cases(tools)
+    ctx.extra_cov["exhaustive_stratum"] = {"cases": len(ex), "grammar": exhaustive_cases.__doc__.split("—")[1].strip()[:300]}
+    for i in range(0, len(ex), 200):
+        run_batch(ctx, ex[i:i + 200], tools)
     n = int(os.environ.get("VERIF_N") or ctx.n(400, 20000))
     if not ctx.proof_ok:
         n = max(n, 3000)
